@@ -125,3 +125,9 @@ package cla
 //@ ensures result
 //@ ensures convElem.(*convergenceElem).ttl >= 0 ==> len(crs) == old(len(crs))
 //@ ensures len(crs) == old(len(crs)) || len(crs) == old(len(crs)) + 1
+
+// Outcome of a transmission attempt (assumed interface contract; the adapters are network code).
+// govc:ghostfield $lastSendOK bool
+// govc:iface ConvergenceSender.Send
+//@ assigns self.$lastSendOK
+//@ ensures self.$lastSendOK == (result == nil)
